@@ -108,7 +108,7 @@ def _same(H, a, b):
     return H.eq(a, b)
 
 
-def h_roundtrip(H, method, anneal, a_prec=(8,)):
+def h_roundtrip(H, method, anneal, a_prec=(8,), training=False):
     a, shape = _build(H, method, 0, a_prec)
     _arbitrary_state(H, a, method)
     if anneal:
@@ -130,8 +130,8 @@ def h_roundtrip(H, method, anneal, a_prec=(8,)):
     H.ensure('load:no-missing-or-unexpected-keys', len(res.missing_keys) == 0 and len(res.unexpected_keys) == 0)
     H.ensure('load:same-key-set', sorted(b.state_dict().keys()) == sorted(sd.keys()))
     x = H.tensor('x', shape) if method != 'mps' else H.const_tensor([[[[0.75]]]])
-    a.eval()
-    b.eval()
+    a.train(training)
+    b.train(training)
     ya, yb = a(x), b(x)                                 # the usual forward pass (samples the coefficients)
     H.observe('ya', ya)
     H.ensure('roundtrip:identical-outputs', H.eq(ya, yb))
@@ -152,7 +152,8 @@ PROPERTY = {
                     'architecture per method (PIT with a shared width mask and a fused BatchNorm, SuperNet with three branch kinds, MPS with two layers); every state_dict '
                     'entry an arbitrary real (MPS: selection coefficients and temperatures; weights concrete), temperature annealing as the one search action that is not a '
                     'parameter update; post-conditions: no missing / unexpected keys, identical outputs on every input, cost, summary, exported network',
-        not_decided=['the closed-world clause over ALL attributes and ALL search actions (only the enumerated actions are applied)', 'architectures beyond the three enumerated ones',
+        not_decided=['the closed-world clause over ALL attributes and ALL search actions (only the enumerated actions are applied); option flags (hard / gumbel / disable_sampling / discrete_cost / '
+                     'train_* switches) are treated as configuration: the fresh wrapper is assumed to be configured like the saved one', 'architectures beyond the three enumerated ones',
                      'state saved in training mode with Gumbel noise (random)', 'optimizer state (not part of the model)'],
         trusted=['nn.Module.state_dict / load_state_dict as specified in pyvc/torchlib.py (cross-checked: key lists are observations)'],
         assumptions=['the fresh wrapper is built with the same constructor arguments', 'eval-mode comparison after one forward pass, as the statement says'],
@@ -165,7 +166,9 @@ HARNESSES = [
          functions=['plinio/methods/pit/pit.py::PIT.__init__', 'plinio/methods/supernet/supernet.py::SuperNet.__init__', 'plinio/methods/mps/mps.py::MPS.__init__',
                     'plinio/methods/supernet/supernet.py::SuperNet.update_softmax_options', 'plinio/methods/mps/mps.py::MPS.update_softmax_options',
                     'plinio/methods/pit/pit.py::PIT.export', 'plinio/methods/supernet/supernet.py::SuperNet.export', 'plinio/methods/mps/mps.py::MPS.export'],
-         quick=[dict(method='pit', anneal=False), dict(method='supernet', anneal=True), dict(method='supernet', anneal=False), dict(method='mps', anneal=True)],
+         quick=[dict(method='pit', anneal=False), dict(method='supernet', anneal=True), dict(method='supernet', anneal=False), dict(method='mps', anneal=True),
+                dict(method='pit', anneal=False, training=True), dict(method='supernet', anneal=False, training=True)],
          thorough=[dict(method='pit', anneal=False), dict(method='supernet', anneal=True), dict(method='supernet', anneal=False), dict(method='mps', anneal=True, a_prec=[4, 8]),
-                   dict(method='mps', anneal=False)], timeout=120),
+                   dict(method='mps', anneal=False), dict(method='pit', anneal=False, training=True), dict(method='supernet', anneal=False, training=True),
+                   dict(method='supernet', anneal=True, training=True)], timeout=120),
 ]
